@@ -116,6 +116,9 @@ MODES['DeepRecursionBase'] = "def cd(n):\n    if n == 0:\n        return 1 / 0\n
 DEPTHS = (1, 2, 4, 8, 16, 32, 64, 96, 98, 99, 100, 101, 128, 200, 256, 400, 512, 700)
 for _d in DEPTHS:
     MODES['Depth:%d' % _d] = "def total(v, i):\n    if i == %d:\n        return v[i + 1]\n    return v[i] + total(v, i + 1)\ntotal([1] * %d, 0)" % (_d, _d + 1)
+# every spelling of opening a file for writing (positional / keyword, binary, update, exclusive creation)
+for _m in ("'w'", "'a'", "'x'", "'r+'", "'rb+'", "'w+b'", "'xb'", "'at'", "mode='w'", "mode='x'", "mode='r+'"):
+    MODES['open:' + _m] = "fh = open('made_by_student.txt', %s)\nfh.close()" % _m
 COMPILE_FAIL = ('Syntax', 'Indent', 'Tab', 'NUL', 'UntermStr', 'CompileRecursion', 'Surrogate')
 SYSTEM_EXIT = ('exit()', 'quit()', 'sys.exit', 'sys.exit msg', 'SystemExit')
 BASE_MODES = {
